@@ -61,7 +61,7 @@ func (v *PointerSchema) process(ctx *p.SchemaCtx) {
 	// Companion code to this codde is in struct.go > process
 	subCtx := ctx.NewSchemaCtx(ctx.Data, ctx.ValPtr, ctx.Path, v.schema.getType())
 	defer subCtx.Free()
-	if fn, ok := ctx.Data.(p.DpFactory); ok {
+	if fn, ok := ctx.Data.(p.DpFactory); ok && fn != nil {
 		val, err := fn()
 		if err != nil {
 			if err.Dtype == "" {
